@@ -220,6 +220,59 @@ def history_check(prog, kind):
     return None
 
 
+HOOK = "notify_pre_state_update"
+
+
+def fortran_generate_opts(dag, hook, instrument):
+    """Fortran generator with explicit index variables (so that the ArrayType counter does not interfere),
+    optional instrumentation and an optional state-update hook."""
+    import contextlib
+    import io
+    import dagrt.codegen.fortran as F
+    from dagrt.function_registry import base_function_registry, register_ode_rhs, register_function
+    from dagrt.data import UserType
+    freg = register_ode_rhs(base_function_registry, "u", identifier="<func>f")
+    freg = freg.register_codegen("<func>f", "fortran", F.CallCode("""
+        ${result} = -2*${u}
+        """))
+    freg = register_function(freg, "<func>h", ("a", "b"), result_names=("r1", "r2"),
+                             result_kinds=(UserType("u"), UserType("u")))
+    freg = freg.register_codegen("<func>h", "fortran", F.CallCode("""
+        ${r1} = ${a}
+        ${r2} = ${b}
+        """))
+    freg = register_function(freg, HOOK, arg_names=("updated_component",))
+    freg = freg.register_codegen(HOOK, "fortran", F.CallCode("""
+        call my_notify(${updated_component})
+        """))
+    utm = {"u": F.ArrayType((2,), F.BuiltinType("real*8"), index_vars="i")}
+    kw = {}
+    if instrument:
+        kw.update(emit_instrumentation=True, timing_function="second")
+    if hook:
+        kw.update(call_before_state_update=HOOK, call_after_state_update=HOOK)
+    with contextlib.redirect_stdout(io.StringIO()):
+        return F.CodeGenerator("m", function_registry=freg, user_type_map=utm, **kw)(dag)
+
+
+def history_same_dag(prog):
+    """One DAGCode object handed to several separate generator objects with different options: the text a
+    generator emits must equal what an identical generator emits on a fresh DAGCode of the same method."""
+    out = []
+    for instrument in (False, True):
+        ref = fortran_generate_opts(pg.build_dag(prog)[0], False, instrument)
+        dag, _ = pg.build_dag(prog)
+        fortran_generate_opts(dag, True, instrument)
+        python_generate(dag)
+        again = fortran_generate_opts(dag, False, instrument)
+        if again != ref:
+            a, b = ref.splitlines(), again.splitlines()
+            import difflib
+            d = [l for l in difflib.unified_diff(a, b, lineterm="", n=0) if l[:1] in "+-" and not l.startswith(("+++", "---"))][:4]
+            out.append(("instrumented" if instrument else "plain", d))
+    return out
+
+
 def fortran_generate_fresh_types(dag):
     """As a user would on every invocation: fresh ArrayType with default index
     variables."""
@@ -313,6 +366,10 @@ def seed_scan(prog, kind, seeds):
 
 def replay(d):
     prog, kind = d["prog"], d["kind"]
+    if d["clause"] == "history_same_dag":
+        diff = history_same_dag(prog)
+        return {"reproduced": bool(diff),
+                "detail": "program %s: Fortran text of a generator differs when another generator object (with a state-update hook) ran on the same DAGCode before: %s" % (prog.get("name"), diff)}
     if d["clause"] == "history":
         diff = history_check(prog, kind)
         return {"reproduced": diff is not None, "history": True,
@@ -428,6 +485,17 @@ def main(tier, seed):
             else:
                 run.stats.refuted += 1
                 run.candidates.append({"clause": "history", "prog": p, "kind": kind, "diff": diff})
+    for p in [q for q in fortran_corpus() if any(op[0] == "yield" for ph in q["phases"] for op in pg.walk_ops(ph["ops"]))][:3]:
+        run.stats.obligations += 1
+        try:
+            diff = history_same_dag(p)
+        except Exception as e:  # noqa
+            diff = [("exception", ["%s: %s" % (type(e).__name__, e)])]
+        if not diff:
+            run.stats.discharged += 1
+        else:
+            run.stats.refuted += 1
+            run.candidates.append({"clause": "history_same_dag", "prog": p, "kind": "fortran", "diff": diff})
     run.bounds = {"programs": len(jobs), "max_order_paths_per_program_kind_universe": max_paths,
                   "universes": ["statements symbolic / names fixed", "names symbolic / statements fixed"],
                   "statements_per_phase": "<= ~8", "hash_seeds_scanned_on_replay": 32}
@@ -440,7 +508,7 @@ def main(tier, seed):
         "sorted()/natsorted() are read without forking: their result cannot depend on the iteration order of their argument",
         "set displays / comprehensions inside dagrt are not intercepted (7 sites; 5 are only used for membership or sorted, ExecutionPhase.depends_on feeds sorted() in the generators and ranked update_plan is covered by C04, _ExtendedUnifier's candidate set only picks which valid match comes first)",
         "interpreter trace compared on one fixed concrete input (the order is what is symbolic here); explorations that hit the path budget are counted incomplete",
-        "history clause is concrete: P, then an unrelated Q, then P again with fresh generator objects in one process",
+        "history clauses are concrete: (i) P, then an unrelated Q, then P again with fresh generator objects in one process; (ii) one DAGCode object handed to separate generator objects with different options (instrumentation, state-update hooks) vs. the same generator on a fresh DAGCode",
     ]
     return run.finish(
         rule="%d programs (Fortran user-type corpus incl. multi-variable self-dependence and shared last uses; small PG corpus; seeded random); each under "
